@@ -78,7 +78,7 @@ Judge(t, pl, V) ==
 
 (* built from a list of Miller planes and a space group: the facets the object holds (t.facets, read back from it in its own
    order) must be the expansion of that list; the expansion itself must lie in the exact input domain *)
-GmfExpected(t) == ExpandPlanes(t.gmf.records, t.gmf.rots)
+GmfExpected(t) == ExpandPlanesM(t.gmf.records, t.gmf.rots, t.gmf.recip)
 GmfDomain(t) ==
   /\ \A i \in DOMAIN t.gmf.records : Len(t.gmf.records[i]) = 4 /\ t.gmf.records[i][4] \in 1..MaxP
                                       /\ \A c \in 1..3 : AbsI(t.gmf.records[i][c]) <= MaxW
